@@ -25,6 +25,22 @@ func isCyclicError(err error) bool {
 	return false
 }
 
+// causedByCycle checks if err reports a cyclic reference, directly or as the
+// reason of the error of an enclosing setting.
+func causedByCycle(err error) bool {
+	for depth := 0; depth < 32; depth++ {
+		e, ok := err.(Error)
+		if !ok {
+			return false
+		}
+		if e.Reason() == ErrCyclicReference {
+			return true
+		}
+		err = e.Reason()
+	}
+	return false
+}
+
 func isMissingError(err error) bool {
 	switch v := err.(type) {
 	case Error:
